@@ -502,11 +502,12 @@ theorem mkEnvWith_succeeds (k : Computer) {t0 : Table α} (hn : t0.n = P.n) (hP 
 
 /-! #### the solvers (C13) and the size-aggregated environment (C16) -/
 
-/-- C13's `Hyps` for a registered computer and a gap with `GapFacts` that never raises: every field is a theorem
-    (`ok`, `ko`, `tot` from `EnvReal` / C08 — this is `C13.real_hyps` —, `ro` from `GapFacts.rows`) -/
-theorem hyps_of (hg : GapFacts gap side) (hgt : C09.GapTotal gap) (k : Computer) (hP : P.WF) (hmin : P.Minimal) :
-    C13.Hyps (k.run : Table α → _) gap P :=
-  C13.real_hyps k hg.rows hgt hP hmin
+/-- C13's `Hyps` for a registered computer and a gap with `GapFacts` that is defined on the tables the environment
+    hands it (`C13.GapDefined`; implied by `GapTotal`, and true for exploitability as soon as N is initially known):
+    every field is a theorem (`ok`, `ko`, `tot` from `EnvReal` / C08, `ro` from `GapFacts.rows`) -/
+theorem hyps_of (hg : GapFacts gap side) (hgd : C13.GapDefined gap P) (k : Computer) (hP : P.WF)
+    (hmin : P.Minimal) : C13.Hyps (k.run : Table α → _) gap P :=
+  C13.real_hyps_defined k hg.rows hgd hP hmin
 
 /-- **C16 step, end to end**: at a reachable state of a hidden game of the class, for every size `k < n` and every
     choice the sampler can make, the linear step succeeds, reveals a previously unknown explorable coalition of
